@@ -310,10 +310,10 @@ func run(repo, dir string, seed uint64, nprog, nvalues int, keep bool) int {
 		}
 		if unknownShrunk < 4 {
 			unknownShrunk++
-			if sl, sans := shrinkFail(b, c, line); sl != "" {
+			if sl, sans, smsg, sexp := shrinkFail(b, c, line); sl != "" {
 				input["op"] = sl
 				input["unshrunk_op"] = line
-				line, ans = sl, sans
+				line, ans, msg, exp = sl, sans, smsg, sexp
 			}
 		}
 		out.Fail(vl.OracleFail{Key: line, What: c.what + " (" + c.kind + "): " + msg, Input: input, Expected: exp, Observed: ans})
@@ -562,10 +562,11 @@ func classifyFail(c *check, ans string, answers []string) []string {
 }
 
 // shrinkFail minimises a failing input outside the known classes by re-running the implementation.
-func shrinkFail(b *batch.Built, c *check, line string) (string, string) {
+func shrinkFail(b *batch.Built, c *check, line string) (string, string, string, string) {
 	s := c.unit.Schema
 	key := fmt.Sprintf("%s:%d", c.unit.Key, c.sidx)
 	tries := 0
+	bestM, bestE := "", ""
 	failing := func(what string, x, y *values.Value) (string, string, bool) {
 		tries++
 		var l []string
@@ -587,10 +588,11 @@ func shrinkFail(b *batch.Built, c *check, line string) (string, string) {
 		if what == "E" {
 			cc.mirror = 1
 		}
-		msg, _ := verdict(&cc, ans[0], ans)
+		msg, exp := verdict(&cc, ans[0], ans)
 		if msg == "" || classifyFail(&cc, ans[0], ans) != nil {
 			return "", "", false
 		}
+		bestM, bestE = msg, exp
 		return l[0], ans[0], true
 	}
 	bestL, bestA := "", ""
@@ -632,7 +634,7 @@ func shrinkFail(b *batch.Built, c *check, line string) (string, string) {
 			return ok
 		}, 200)
 	}
-	return bestL, bestA
+	return bestL, bestA, bestM, bestE
 }
 
 var _ = sort.Strings
